@@ -173,6 +173,9 @@ def bin_image(img: np.ndarray | da.Array, binsize: int):
     shapes = tuple(_shapes)
     img_reshaped = img[slices].reshape(shapes)
     axis = tuple(i * 2 + 1 for i in range(img.ndim))
+    if img.dtype == np.float16:
+        # a block sum of half-precision values overflows or loses precision in float16
+        return img_reshaped.sum(axis=axis, dtype=np.float32)
     return img_reshaped.sum(axis=axis)
 
 
